@@ -784,6 +784,27 @@ func (dg *Discharger) Run(results []*FuncResult) {
 				}
 				q := buildQuery(j.decls, o.PC, o.Goal)
 				o.Query = q
+				if o.Class != "VACUITY" && !strings.Contains(o.Goal.S, "(forall") && !strings.Contains(o.Goal.S, "(exists") {
+					// first try with the quantifier-free part of the path
+					// condition only (fewer assumptions: a proof from them is
+					// a proof); it keeps easy goals away from the quantifier engine
+					var ground []Term
+					nq := 0
+					for _, t := range o.PC {
+						if strings.Contains(t.S, "(forall") || strings.Contains(t.S, "(exists") {
+							nq++
+							continue
+						}
+						ground = append(ground, t)
+					}
+					if nq > 0 {
+						r0 := Solve(buildQuery(j.decls, ground, o.Goal), 2*time.Second, false)
+						if r0.Answer == "unsat" {
+							o.Result = &r0
+							continue
+						}
+					}
+				}
 				r := Solve(q, dg.Timeout, dg.All && o.Class != "VACUITY")
 				o.Result = &r
 				if o.Class == "VACUITY" {
